@@ -119,7 +119,12 @@ def inject(p, cls, r):
         if fn is None:
             return None
         filt = {"nosuchstrat": "x"} if not earlier or r.random() < 0.5 else {earlier[0]["name"]: "nosuchstratum"}
-        ops[i].setdefault("fadj", []).append([fn, {s: {"mul": "2"} for s in ops[i]["strata"]}, filt, {}])
+        dfilt = {}
+        if earlier and "nosuchstrat" not in filt and r.random() < 0.6:
+            dfilt = {earlier[0]["name"]: earlier[0]["strata"][0]}      # the same key on the other end, with a valid stratum
+            if r.random() < 0.5:
+                filt, dfilt = dfilt, filt                               # ... or the unknown stratum on the destination side
+        ops[i].setdefault("fadj", []).append([fn, {s: {"mul": "2"} for s in ops[i]["strata"]}, filt, dfilt])
         return q, i + 1
     if cls == "unknown_output_source":
         kind = r.choice(["agg", "cum", "func"])
